@@ -2318,9 +2318,9 @@ SPECS = {
             'PhQ::Print is modelled by hand (Core/Print.lean: interval cascade + the contract of a correctly rounding '
             'printf / strtod); the model is compared text for text with the real PhQ::Print and PhQ::ParseNumber '
             '(libstdc++/glibc) on threshold neighbourhoods and random values of all three types',
-            'lossless printing and the scientific digit count are proved for all normal numbers; the fixed-notation '
-            'digit count is proved up to a proviso (fixed_digits_partial) that the real-code sweep checks: '
-            'exhaustively for float in the thorough tier',
+            'lossless printing and the digit count (scientific and fixed notation) are proved for all normal numbers '
+            'of the model; the real-code sweep checks the same on the implementation: exhaustively for float in the '
+            'thorough tier',
             'composite forms are translated from the code (traced strings); JSON validity is proved for the '
             'skeleton with number text substituted; that Print emits JSON-grammar numbers for finite values is '
             'checked on the real output',
